@@ -2,7 +2,7 @@
 # Builds .work/bin/vcheck (tags verif, overlay) from the current /repo tree.
 set -eu
 export GOFLAGS=-mod=mod GOPROXY=off GOSUMDB=off GOTOOLCHAIN=local
-VERIF_DIR="${VERIF_DIR:-/verif}"
+VERIF_DIR="${VERIF_DIR:-$(cd "$(dirname "${BASH_SOURCE[0]}")" && pwd)}"
 VERIF_REPO="${VERIF_REPO:-/repo}"
 cd "$VERIF_DIR/harness"
 mkdir -p "$VERIF_DIR/.work/bin" "$VERIF_DIR/.work/overlay"
